@@ -748,7 +748,7 @@ func cmdRun(args []string) int {
 		fmt.Println("NOTE: VERIF_EXTRA_OVERLAY is set: checking modified copies of repository files, no evidence is written")
 		*noEvidence = true
 	}
-	if *tier != "quick" && *tier != "thorough" {
+	if *tier != "quick" && *tier != "thorough" && *tier != "dev" {
 		*tier = "quick"
 	}
 	tierN := 0
